@@ -13,6 +13,8 @@ Fields:  name (Lean definition), func (qualified Python function), params [(lean
            negated test selects the other arm); a statement anchor is `if <test>` (by meaning) or the beginning of the
            statement's text, or a tuple of alternatives.
   until    cut the selection before the first statement matching this anchor;  take: keep the first n;  tail: append this text
+  tail_from  a pattern (`range(_a, _b, _c)`): the first expression AFTER the selection that matches it supplies the pattern
+           variables of `tail` — the synthetic return names the results through the code that consumes them, not through locals
   bind     Python expression (compared through ckey) -> parameter it stands for
   consts   Python expression (compared through ckey) -> Python expression over the parameters that replaces it
   kind="elt": the element of the comprehension over `iter` (text) that is the sole argument of `within`(...); its bound
@@ -70,7 +72,7 @@ FILES = {
         "file": DK,
         "targets": [
             dict(name="dokSliceBounds", func="DOK._setitem", select=("if_body", "isinstance(ind, slice)"),
-                 until="key_list_temp = ", tail="return slice(start, stop, step)",
+                 until="key_list_temp = ", tail="return slice(_a, _b, _c)", tail_from="range(_a, _b, _c)",
                  bind={"ind.start": "istart", "ind.stop": "istop", "ind.step": "istep", "self.shape[i]": "dim"},
                  params=[("istart", OPT), ("istop", OPT), ("istep", OPT), ("dim", INT)], ret="slice3",
                  note="bounds of the slice loop; synthetic return of (start, stop, step)"),
